@@ -321,13 +321,13 @@ def minimise(rp, cls):
         cand = json.loads(json.dumps(cur))
         cand["plan"]["choices"] = ch[:mid]
         runs += 1
-        if cls in classes_of(cand):
+        if core.budget_ok() and cls in classes_of(cand):
             hi = mid
         else:
             lo = mid + 1
     cand = json.loads(json.dumps(cur))
     cand["plan"]["choices"] = ch[:hi]
-    if cls in classes_of(cand):
+    if core.budget_ok() and cls in classes_of(cand):
         cur = cand
     return cur
 
